@@ -51,7 +51,7 @@ STYLES = [(True, False, False, None), (False, True, False, None), (False, False,
 
 
 def rand_caption_nodes(rng, adversarial=0.5, pipe=True, styles=0.3, max_lines=4, edge_breaks=0.08,
-                       style_pool=None, empty_lines=0.25):
+                       style_pool=None, empty_lines=0.25, intra=0.0):
     """1..max_lines visible lines, optional empty lines between them (consecutive breaks or an empty TEXT
     node), optional flat style spans (a span covers whole words of one line, a whole line or several lines)."""
     nlines = rng.randint(1, max_lines)
@@ -101,7 +101,50 @@ def rand_caption_nodes(rng, adversarial=0.5, pipe=True, styles=0.3, max_lines=4,
         nodes.append(("s", False) + open_multi)
     if rng.random() < edge_breaks:
         nodes.append(("b",))
+    if rng.random() < intra:
+        nodes = split_inside_word(rng, nodes, pool)
     return nodes
+
+
+def split_inside_word(rng, nodes, pool):
+    """split one text node at a position inside a word (preferring the middle of an arrow), optionally wrapping
+    the second half in a span; only when no span is open at that node"""
+    depth = 0
+    cands = []
+    for k, n in enumerate(nodes):
+        if n[0] == "s":
+            depth += 1 if n[1] else -1
+        elif n[0] == "t" and depth == 0 and len(n[1]) >= 2:
+            cands.append(k)
+    if not cands:
+        return nodes
+    k = rng.choice(cands)
+    txt = nodes[k][1]
+    pos = [i + 2 for i in range(len(txt)) if txt.startswith("-->", i)]
+    if pos and rng.random() < 0.8:
+        i = rng.choice(pos)
+    else:
+        i = rng.randint(1, len(txt) - 1)
+    a, b = txt[:i], txt[i:]
+    if rng.random() < 0.6:
+        st = rng.choice(pool)
+        mid = [("t", a), ("s", True) + st, ("t", b), ("s", False) + st]
+    else:
+        mid = [("t", a), ("t", b)]
+    return nodes[:k] + mid + nodes[k + 1:]
+
+
+def has_inner_word_boundary(spec):
+    """two text nodes of one line meet without white space on either side (style nodes between them ignored)"""
+    prev = None
+    for n in spec:
+        if n[0] == "b":
+            prev = None
+        elif n[0] == "t":
+            if prev is not None and prev and n[1] and not prev[-1].isspace() and not n[1][0].isspace():
+                return True
+            prev = n[1] if n[1] else prev
+    return False
 
 
 def style_dict(i, b, u, color):
